@@ -39,6 +39,40 @@ EXCLUDE = list(P.get("exclude", []))
 EXCLUDE_EXACT = list(P.get("exclude_exact", []))
 
 D = Dialect.get_or_raise(DIALECT or None)
+
+
+def _comment_sigma() -> str:
+    """Alphabet for comment texts: every character of the dialect's comment delimiters, quote and identifier delimiters
+    and escapes, plus representatives (letter, digit, space, tab, LF, CR, NUL, non-ASCII letter, NBSP)."""
+    core = D.tokenizer()._core
+    if P.get("alphabet") == "markers":
+        # small alphabet for longer texts: the comment delimiters' own characters, a letter, a space and a line break
+        chars = set("a \n")
+        for k, v in core.comments.items():
+            chars.update(k)
+            chars.update(v or "")
+        return "".join(sorted(chars))
+    chars = set("a1 \t\n\r\x00\u00e9\u00a0-")
+    for tab in (core.comments, core.quotes, core.identifiers):
+        for k, v in tab.items():
+            chars.update(k)
+            if isinstance(v, str):
+                chars.update(v)
+    for tab in (core.string_escapes, core.identifier_escapes):
+        for k in tab:
+            chars.update(k)
+    chars.update(core.hint_start or "")
+    return "".join(sorted(chars))
+
+
+SIGMA = None
+if KIND == "comment" and P.get("alphabet", True):
+    # str.strip()/isspace() on a symbolic character cost seconds per query in CrossHair's Unicode model (measured
+    # 9 s per path): comment texts range over SIGMA and the predicates are replaced by tables exact on SIGMA
+    from engines.xh import alpha
+
+    SIGMA = _comment_sigma()
+    alpha.install(SIGMA)
 GEN = {False: D.generator(pretty=False), True: D.generator(pretty=True)}
 GEN_NC = {False: D.generator(pretty=False, comments=False), True: D.generator(pretty=True, comments=False)}
 TOK = D.tokenizer()
@@ -58,6 +92,10 @@ if KIND == "comment":
 def in_bounds(v: str, pretty: bool) -> bool:
     if not (MINLEN <= len(v) <= MAXLEN):
         return False
+    if SIGMA is not None:
+        for c in v:
+            if c not in SIGMA:
+                return False
     if PRETTY is not None and PRETTY != "both" and pretty != bool(PRETTY):
         return False
     for sub in EXCLUDE:
